@@ -137,6 +137,65 @@ Proof.
 Qed.
 Print Assumptions C16_feeder_ofb_ctr_std.
 
+(* ECB / CBC feeders: padding default encrypts the PKCS7-padded input; padding none accepts whole
+   blocks only and is plain ECB / CBC in either direction; Decrypter with padding default decrypts
+   and strips the last block as pyaes does (pad byte 1..16 removes that many bytes).  Every split. *)
+Theorem C16_feeder_block_std : forall m k iv ctr chunks,
+  m = ECB \/ m = CBC -> key_ok k = true -> length (the_iv iv) = 16%nat ->
+  let data := concat chunks in
+  let aligned := (negb (length data =? 0)%nat && (length data mod 16 =? 0)%nat)%bool in
+  stream_crypt aes_E aes_D m Enc PadDefault k iv ctr chunks =
+    Ok (std_crypt aes_E aes_D Enc m k (the_iv iv) (append_PKCS7_padding data)) /\
+  (forall d, stream_crypt aes_E aes_D m d PadNone k iv ctr chunks =
+    if aligned then Ok (std_crypt aes_E aes_D d m k (the_iv iv) data) else Err EBare) /\
+  stream_crypt aes_E aes_D m Dec PadDefault k iv ctr chunks =
+    if aligned then let P := std_crypt aes_E aes_D Dec m k (the_iv iv) data in
+                    let* x := strip_PKCS7_padding (lastN 16 P) in Ok (takeN (blen P - 16) P ++ x)
+    else Err EValue.
+Proof.
+  intros m k iv ctr chunks Hm Hk Hiv data aligned. split; [|split].
+  - apply block_enc_default_std; [exact aes_E_len | exact Hm | exact Hk | exact Hiv].
+  - intro d. apply block_none_std; [exact aes_E_len | exact Hm | exact Hk | exact Hiv].
+  - apply block_dec_default_std; [exact aes_E_len | exact aes_D_len | exact Hm | exact Hk | exact Hiv].
+Qed.
+Print Assumptions C16_feeder_block_std.
+
+(* CFB feeders (segment size 1..16 bytes, padding default): s-bit CFB of SP 800-38A 6.3 on the
+   input zero-padded to whole segments, cut back to the input length.  Every split. *)
+Theorem C16_feeder_cfb_std : forall d s k iv ctr chunks,
+  1 <= seg_of s <= 16 -> key_ok k = true -> length iv = 16%nat ->
+  let sb := N.to_nat (seg_of s) in
+  let data := concat chunks in
+  let padded := data ++ zeros (sb - length data mod sb) in
+  stream_crypt aes_E aes_D (CFB s) d PadDefault k (Some iv) ctr chunks =
+  Ok (firstn (length data)
+        (match d with
+         | Enc => sp_cfb_enc (aes_E k) sb (pieces (length padded) sb padded) iv
+         | Dec => sp_cfb_dec (aes_E k) sb (pieces (length padded) sb padded) iv
+         end)).
+Proof.
+  intros d s k iv ctr chunks Hs Hk Hiv sb data padded.
+  pose proof (cfb_feeder_std aes_E aes_D aes_E_len d s k iv ctr chunks Hs Hk Hiv) as H.
+  cbv zeta in H. fold sb data padded in H. rewrite H. destruct d; reflexivity.
+Qed.
+Print Assumptions C16_feeder_cfb_std.
+
+(* mode objects called directly: for CFB (whole segments), OFB and CTR, two consecutive calls
+   return what one call on the concatenation returns, and leave the object in the same state *)
+Theorem C16_mode_calls_split : forall m d k st x1 x2,
+  (m = CFB (match m with CFB s => s | _ => 0 end) \/ m = OFB \/ m = CTR) ->
+  (m = CTR -> length (m_reg st) = 16%nat) ->
+  blen x1 mod unit_of m = 0 -> blen x2 mod unit_of m = 0 ->
+  mode_crypt aes_E aes_D d m k st (x1 ++ x2) =
+  let* (o1, st1) := mode_crypt aes_E aes_D d m k st x1 in
+  let* (o2, st2) := mode_crypt aes_E aes_D d m k st1 x2 in
+  Ok (o1 ++ o2, st2).
+Proof.
+  intros m d k st x1 x2 Hm Hc H1 H2. apply unit_hom; try assumption; [exact aes_E_len|].
+  destruct Hm as [-> | [-> | ->]]; exact I.
+Qed.
+Print Assumptions C16_mode_calls_split.
+
 (* Counter(v) holds the low 128 bits of v big-endian; increment() is +1 modulo 2^128
    (the standard incrementing function of SP 800-38A B.1 on all 128 bits) *)
 Theorem C16_ctr_counter : forall v,
